@@ -294,6 +294,27 @@ def parse_statement_line(ln):
         return ("opaque", ln)
 
 
+def _single_line_if(ln):
+    "('cond text', 'statement;') for `if (cond) statement;`, else None"
+    if not ln.startswith("if (") or not ln.endswith(";"):
+        return None
+    depth, instr = 0, False
+    for k in range(3, len(ln)):
+        ch = ln[k]
+        if ch == '"' and ln[k - 1] != "\\":
+            instr = not instr
+        if instr:
+            continue
+        if ch == "(":
+            depth += 1
+        elif ch == ")":
+            depth -= 1
+            if depth == 0:
+                rest = ln[k + 1:].strip()
+                return (ln[4:k], rest) if rest and not rest.startswith("{") else None
+    return None
+
+
 def parse_block(lines, i=0):
     """lines: stripped non-empty lines starting at a '{'. Returns (('block', decls+stmts), next_i)."""
     if lines[i] != "{":
@@ -314,6 +335,12 @@ def parse_block(lines, i=0):
         if m:
             b, i = parse_block(lines, i + 1)
             body.append(("for", m.group(1), parse_expr(m.group(2)), b))
+            continue
+        one = _single_line_if(ln)
+        if one is not None:
+            # `if (cond) statement;` on one line: a block with that one statement
+            body.append(("if", parse_expr(one[0]), ("block", [parse_statement_line(one[1])]), None))
+            i += 1
             continue
         m = re.match(r"^if \((.*)\)$", ln)
         if m:
